@@ -122,6 +122,11 @@ fn fold(agg: &E, rows: &[&RowCtx]) -> Fold {
             if non_null.is_empty() {
                 return exact(V::Null);
             }
+            if non_null.iter().all(|v| matches!(v, V::Int(_) | V::Real(_))) && non_null.iter().any(|v| matches!(v, V::Int(_))) && non_null.iter().any(|v| matches!(v, V::Real(_))) {
+                // INT and REAL values mixed (e.g. from a CASE): the numeric sum
+                let acc: f64 = non_null.iter().map(|v| match v { V::Int(i) => *i as f64, V::Real(r) => *r, _ => 0.0 }).sum();
+                return if acc.is_finite() && acc.abs() < 1e15 { Fold::Cell(Cell::Approx(acc, 1e-9)) } else { Fold::Unspec };
+            }
             if !same_type(&["int", "real", "interval"]) {
                 return Fold::Unspec;
             }
@@ -207,6 +212,10 @@ fn fold(agg: &E, rows: &[&RowCtx]) -> Fold {
         "avg" => {
             if non_null.is_empty() {
                 return exact(V::Null);
+            }
+            if non_null.iter().all(|v| matches!(v, V::Int(_) | V::Real(_))) && non_null.iter().any(|v| matches!(v, V::Int(_))) && non_null.iter().any(|v| matches!(v, V::Real(_))) {
+                let acc: f64 = non_null.iter().map(|v| match v { V::Int(i) => *i as f64, V::Real(r) => *r, _ => 0.0 }).sum();
+                return if acc.is_finite() && acc.abs() < 1e15 { Fold::Cell(Cell::Approx(acc / non_null.len() as f64, 1e-9)) } else { Fold::Unspec };
             }
             if !same_type(&["int", "real"]) {
                 return Fold::Unspec;
